@@ -7,9 +7,12 @@ getter on the class, and the names ``get_doc_mergers``, ``merge_condense_all``, 
 Vocabulary shared with spec/YMultiDoc.tla:
   source document k of kind  full : {d<k>: k, shared: k, lst: [k]}
                              bare : {d<k>: k, shared: k}
+                             seq  : [0, k]        sequ : [k]          (root-level Arrays)
+                             set  : !!set {0, k}  setu : !!set {k}    (root-level Sets)
                              empty: an empty YAML document (loads as None)
-  abstract document  {"nul": bool, "keys": [ids of d-keys, sorted], "shared": int, "lst": [ids]}
-  event  {"kind", "f", "i", "j", "ids", "hashes", "arrays", "lm", "rm"}
+  abstract document  {"nul": bool, "root": "map"|"seq"|"set"|"-", "keys": [ids of d-keys, sorted],
+                      "shared": int, "lst": [list under lst / elements / members ascending]}
+  event  {"kind", "f", "i", "j", "ids", "hashes", "arrays", "sets", "lm", "rm"}
 """
 import contextlib
 import io
@@ -19,6 +22,7 @@ import sys
 from types import SimpleNamespace
 
 from ruamel.yaml import YAML
+from ruamel.yaml.comments import CommentedSet
 
 import yamlpath.common.parsers as yp_parsers
 from yamlpath.commands import yaml_merge as ym
@@ -26,8 +30,10 @@ from yamlpath.common import Parsers
 from yamlpath.merger import Merger, MergerConfig
 from yamlpath.wrappers import ConsolePrinter, NodeCoords
 
-NUL = {"nul": True, "keys": [], "shared": 0, "lst": []}
-ODD = {"nul": False, "keys": [0], "shared": 0, "lst": []}   # data outside the marker family
+NUL = {"nul": True, "root": "-", "keys": [], "shared": 0, "lst": []}
+ODD = {"nul": False, "root": "odd", "keys": [0], "shared": 0, "lst": []}   # data outside the marker families
+SRC_LIST = {"full": lambda k: [k], "bare": lambda k: [], "seq": lambda k: [0, k], "sequ": lambda k: [k],
+            "set": lambda k: [0, k], "setu": lambda k: [k]}
 DRIVERS = ("merge_condense_all", "merge_across", "merge_matrix")
 
 
@@ -35,6 +41,11 @@ DRIVERS = ("merge_condense_all", "merge_across", "merge_matrix")
 def doc_body(k, kind, flow):
     if kind == "empty":
         return None
+    if kind in ("seq", "sequ"):
+        els = SRC_LIST[kind](k)
+        return (json.dumps(els) + "\n") if flow else "".join("- %d\n" % e for e in els)
+    if kind in ("set", "setu"):
+        return "!!set\n" + "".join("? %d\n" % e for e in SRC_LIST[kind](k))
     if flow:
         d = {"d%d" % k: k, "shared": k}
         if kind == "full":
@@ -59,6 +70,8 @@ def stream_text(ids, kinds, style, rng):
             out.append(sp)
         elif n == 0 and len(ids) == 1 and rng.random() < 0.5:
             out.append(body)                      # a single document needs no marker
+        elif body.startswith("!!set") and rng.random() < 0.5:
+            out.append("--- " + body)
         else:
             out.append("---\n" + body)
     return "".join(out)
@@ -71,6 +84,20 @@ def absdoc(data):
     """Marker abstraction of parsed YAML/JSON data; ODD when outside the family."""
     if data is None:
         return dict(NUL)
+    try:
+        if isinstance(data, (set, frozenset, CommentedSet)) or \
+                (isinstance(data, dict) and len(data) > 0 and all(v is None for v in data.values())):
+            # a Set; yaml-merge's JSON rendering of a Set is a Hash of its members to null
+            members = [int(x) for x in data]
+            if any(isinstance(x, bool) for x in data) or len(set(members)) != len(members):
+                return dict(ODD)
+            return {"nul": False, "root": "set", "keys": [], "shared": 0, "lst": sorted(members)}
+        if isinstance(data, list):
+            if any(isinstance(x, bool) or not isinstance(x, int) for x in data):
+                return dict(ODD)
+            return {"nul": False, "root": "seq", "keys": [], "shared": 0, "lst": [int(x) for x in data]}
+    except Exception:                             # pylint: disable=broad-except
+        return dict(ODD)
     if not hasattr(data, "keys"):
         return dict(ODD)
     keys, shared, lst = [], None, []
@@ -96,7 +123,17 @@ def absdoc(data):
         return dict(ODD)
     if shared is None or not keys:
         return dict(ODD)
-    return {"nul": False, "keys": sorted(keys), "shared": shared, "lst": lst}
+    return {"nul": False, "root": "map", "keys": sorted(keys), "shared": shared, "lst": lst}
+
+
+def marker(a):
+    """The id of the source document an abstract document is (0: empty, -1: not a single source)."""
+    if a["nul"]:
+        return 0
+    if a["root"] == "map":
+        return a["keys"][0] if len(a["keys"]) == 1 else -1
+    nz = [x for x in a["lst"] if x != 0]
+    return nz[0] if len(nz) == 1 and len(a["lst"]) <= 2 else -1
 
 
 def parse_stream(text):
@@ -146,23 +183,23 @@ class Recorder:
         self.stray = 0
 
     def ev(self, kind, f=0, i=0, j=0, ids=(), config=None, lm=None, rm=None):
-        hashes = arrays = "-"
+        hashes = arrays = sets = "-"
         if config is not None:
             try:
                 hashes = config.hash_merge_mode(NodeCoords(None, None, None)).name.lower()
                 arrays = config.array_merge_mode(NodeCoords(None, None, None)).name.lower()
+                sets = config.set_merge_mode(NodeCoords(None, None, None)).name.lower()
             except Exception:                     # pylint: disable=broad-except
-                hashes = arrays = "?"
+                hashes = arrays = sets = "?"
         self.events.append({"kind": kind, "f": f, "i": i, "j": j, "ids": list(ids), "hashes": hashes,
-                            "arrays": arrays, "lm": lm or dict(NUL), "rm": rm or dict(NUL)})
+                            "arrays": arrays, "sets": sets, "lm": lm or dict(NUL), "rm": rm or dict(NUL)})
 
     # --- get_doc_mergers
     def on_load(self, mergers, loaded, first):
         self.nload += 1
         ids = []
         for m in mergers:
-            a = absdoc(m._data)                   # pylint: disable=protected-access
-            ids.append(0 if a["nul"] else (a["keys"][0] if len(a["keys"]) == 1 else -1))
+            ids.append(marker(absdoc(m._data)))    # pylint: disable=protected-access
         self.keep.extend(mergers)
         self.ev("Load" if loaded else "LoadFailed", f=self.nload, ids=ids)
         if first:
@@ -214,11 +251,10 @@ class Recorder:
             return self.last_reader
         if same:
             return same[0]
-        a = absdoc(rhs)
-        if len(a["keys"]) == 1:
+        a = marker(absdoc(rhs))
+        if a > 0:
             for m in pool:
-                b = absdoc(m._data)                           # pylint: disable=protected-access
-                if b["keys"] == a["keys"]:
+                if marker(absdoc(m._data)) == a:              # pylint: disable=protected-access
                     return m
         return None
 
@@ -364,7 +400,7 @@ def run_cli(argv, stdin_text=None):
     return code, out.getvalue(), err.getvalue(), rec
 
 
-def run_lib(mode, hashes, arrays, paths):
+def run_lib(mode, hashes, arrays, paths, sets=None):
     """The library-level route: get_doc_mergers for the first file, merge_docs for every other one
     (exactly the calls main() makes for two or more files). Returns (state, recorder, mergers)."""
     ns = SimpleNamespace(multi_doc_mode=mode, quiet=True, verbose=False, debug=False)
@@ -372,6 +408,8 @@ def run_lib(mode, hashes, arrays, paths):
         ns.hashes = hashes
     if arrays:
         ns.arrays = arrays
+    if sets:
+        ns.sets = sets
     log = ConsolePrinter(ns)
     err = io.StringIO()
     saved = sys.stderr
